@@ -1,4 +1,8 @@
-"""C07  The PSD attribute is never stale."""
+"""C07  The PSD attribute is never stale.
+
+kind "hist":  setter / call / read histories inside the computable states: real API vs the Lean object model, plus the oracle.
+kind "fhist": histories through states whose estimate cannot be computed (caught exceptions), rejected assignments, temporaries
+              assigned to data: oracle only (see the comment above FAIL)."""
 import itertools
 
 import numpy as np
@@ -17,7 +21,11 @@ TRUSTED_BASE = [
     "unguarded order setter (the order slot, unused by that class, holds the data_y identifier: an unguarded setter that marks the "
     "object modified); the oracle evaluates the same histories on the real code alone",
 ]
-PARTIAL = []
+PARTIAL = [
+    "histories with failing computations, rejected assignments and temporaries (kind `fhist`) are evaluated by the oracle on the "
+    "real code only: the Lean object model (driver mode O, Model/Object.lean) treats `compute` as a total function of the attribute "
+    "snapshot, so it has no failing computation, and the theorems say nothing about an object whose computation raised",
+]
 ASSUMPTIONS = ["fresh objects are built with the final attribute values, NFFT being the object's resolved integer NFFT",
                "attributes listed by the property: data (array or list; data_y for the cross-correlogram), NFFT, sampling, window, "
                "lag, detrend, scale_by_freq, sides, model orders",
@@ -25,7 +33,12 @@ ASSUMPTIONS = ["fresh objects are built with the final attribute values, NFFT be
                "reports after the read, and len(frequencies()) is compared BEFORE a read only when no recomputation is pending",
                "detrend='mean' has no numerical effect on any estimator class, so a stale and a fresh estimate cannot be told apart "
                "after a detrend assignment alone (such histories are tagged, nothing more is asserted about them)",
-               "data_y histories keep the data length fixed (cross-correlation of equal-length sequences)"]
+               "data_y histories keep the data length fixed (cross-correlation of equal-length sequences)",
+               "fhist: which states cannot be estimated is not assumed but asked of a freshly constructed object at every observation; "
+               "states whose estimate is returned but is numerical noise (pcovar order > N, pminvar order 17..20 of 20 samples) are "
+               "not generated on purpose; an exception raised by `sides = ...` itself (the setter first brings the estimate up to "
+               "date) is accepted and the value of `sides` is compared as reported, as for kind `hist`; error families: assertion / "
+               "value / type / index / singular (division by zero, LinAlgError) / other by class name"]
 RULE = ("operation sequences over each estimator class (12, pev included; MultiTapering with unity / adapt / eigen weighting), real "
         "and complex start data of length 20, 23 and the powers of two 16, 32, over the class's alphabet of 30-36 setter/call/read "
         "operations (core alphabet of 19-23, plus: every attribute set back to its start value, a third sampling rate / window, "
@@ -35,7 +48,23 @@ RULE = ("operation sequences over each estimator class (12, pev included; MultiT
         "classes, sampled length 3 over the whole alphabet; both: away / read / back / read patterns for every attribute, random "
         "sequences of length <= 12.  After every operation sides, NFFT, df, len(frequencies()) are compared with the model, and every "
         "psd / get_converted_psd read with a fresh object; the oracle re-assigns every attribute (guarded and unguarded setters) "
-        "with its current value; non-trivial = sequence with at least one read after a setter")
+        "with its current value; non-trivial = sequence with at least one read after a setter.  "
+        "Kind `fhist` (oracle only), every class, real and complex N = 20 start data: histories in which an assignment makes the "
+        "estimate uncomputable (per class, from grids run on the unchanged library: order 0 / >= N, MA order 0 / >= lag, lag 0 / >= N, "
+        "NFFT 1..5 below what the estimator needs, replacement records of 1..8 samples, real and complex), the failing computation "
+        "is met by psd / str(p) (which swallows the exception) / get_converted_psd / power() / `sides = ...` / p() / p.run() with the "
+        "exception caught, the object is observed again (psd, get_converted_psd, power(), str, sides assignment), and then sometimes "
+        "made computable again or assigned another attribute; before the failing assignment the estimate was computed (read, p(), "
+        "converted, other NFFT) or never was.  Every observation is compared with the same observation on a freshly constructed "
+        "object with the same attribute values: it has to raise an error of the same family where the fresh object raises, and to "
+        "return the same values (rtol 1e-9 as for `hist`; the worst difference between re-used and fresh object over 24 830 thorough "
+        "cases on the unchanged tree is exactly 0.0; str(p) compared as text) where it returns; len(frequencies()) = len(psd) whenever "
+        "psd is returned; NFFT, sampling, df = sampling/NFFT after every operation.  Also: assignments the setters reject (NFFT -3 / 0 "
+        "/ 2.5 / text, unknown detrend / sides / window, non-boolean scale_by_freq, negative orders, data that is no array) on new, "
+        "up-to-date and pending objects - the object (13 attributes and the data bytes) must be unchanged; temporaries assigned to "
+        "data with no reference kept (p.data = rec; [read;] p.data = rec2 / p.data - p.data.mean() / p.data * 3: CPython re-uses the "
+        "id() of the freed array); random histories of length <= 14 over all of these.  quick: per failing assignment the plain read / "
+        "assign / read / read pattern plus 3 sampled (first, second observation) combinations; thorough: all 63 combinations")
 
 SIDE_CODE = {"onesided": 1, "twosided": 2, "centerdc": 3}
 CODE_SIDE = {v: k for k, v in SIDE_CODE.items()}
@@ -90,42 +119,50 @@ def _sp():
     return spectrum
 
 
-def build(cls, a, mt="unity"):
-    """construct the estimator object for an attribute snapshot (dict); `mt` is the MultiTapering weighting (a constructor option
-    that no operation changes)"""
+def build_raw(cls, x, kw, window="hann", detrend=None, lag=6, ar=4, ma=2, data_y=None, mt="unity"):
+    """construct the estimator object from explicit values: `x` the data, `kw` the common keyword arguments (NFFT, sampling,
+    scale_by_freq); `mt` is the MultiTapering weighting (a constructor option that no operation changes)"""
     sp = _sp()
-    x = DATA[a["dataId"]]
-    kw = dict(NFFT=a["nfft"], sampling=SAMP[a["samp"]], scale_by_freq=bool(a["scale"]))
     if cls == "Periodogram":
-        return sp.Periodogram(x, window=WINDOWS[a["window"]], detrend=DETREND[a["detrend"]], **kw)
+        return sp.Periodogram(x, window=window, detrend=detrend, **kw)
     if cls == "pcorrelogram":
-        o = sp.pcorrelogram(x, lag=a["lag"], window=WINDOWS[a["window"]], detrend=DETREND[a["detrend"]], **kw)
-        if a.get("ar", 0):
+        o = sp.pcorrelogram(x, lag=lag, window=window, detrend=detrend, **kw)
+        if data_y is not None:
             # the constructor has no data_y argument: a fresh cross-correlogram is an object whose data_y is assigned before any
-            # computation (the `ar` slot of the snapshot holds the data_y identifier for this class)
-            o.data_y = DATAY[a["ar"]].copy()
+            # computation
+            o.data_y = np.array(data_y, copy=True)
         return o
     if cls == "pburg":
-        return sp.pburg(x, a["ar"], **kw)
+        return sp.pburg(x, ar, **kw)
     if cls == "pyule":
-        return sp.pyule(x, a["ar"], **kw)
+        return sp.pyule(x, ar, **kw)
     if cls == "pcovar":
-        return sp.pcovar(x, a["ar"], **kw)
+        return sp.pcovar(x, ar, **kw)
     if cls == "pmodcovar":
-        return sp.pmodcovar(x, a["ar"], **kw)
+        return sp.pmodcovar(x, ar, **kw)
     if cls == "parma":
-        return sp.parma(x, a["ar"], a["ma"], a["lag"], **kw)
+        return sp.parma(x, ar, ma, lag, **kw)
     if cls == "pma":
-        return sp.pma(x, a["ma"], a["ar"], **kw)
+        return sp.pma(x, ma, ar, **kw)
     if cls == "pminvar":
-        return sp.pminvar(x, a["ar"], **kw)
+        return sp.pminvar(x, ar, **kw)
     if cls == "pmusic":
-        return sp.pmusic(x, a["ar"], NSIG=2, **kw)
+        return sp.pmusic(x, ar, NSIG=2, **kw)
     if cls == "pev":
-        return sp.pev(x, a["ar"], NSIG=2, **kw)
+        return sp.pev(x, ar, NSIG=2, **kw)
     if cls == "MultiTapering":
         return sp.MultiTapering(x, NW=2.5, k=4, method=mt, **kw)
     raise ValueError(cls)
+
+
+def build(cls, a, mt="unity"):
+    """construct the estimator object for an attribute snapshot (dict); `mt` is the MultiTapering weighting (a constructor option
+    that no operation changes)"""
+    kw = dict(NFFT=a["nfft"], sampling=SAMP[a["samp"]], scale_by_freq=bool(a["scale"]))
+    # for pcorrelogram the `ar` slot of the snapshot holds the data_y identifier (0 = None)
+    dy = DATAY[a["ar"]] if (cls == "pcorrelogram" and a.get("ar", 0)) else None
+    return build_raw(cls, DATA[a["dataId"]], kw, window=WINDOWS[a["window"]], detrend=DETREND[a["detrend"]], lag=a["lag"],
+                     ar=a["ar"], ma=a["ma"], data_y=dy, mt=mt)
 
 
 def init_attrs(cls, dataId):
@@ -591,9 +628,427 @@ def _tags(p):
     return t
 
 
+# ----------------------------------------------------------------------------------------------------------------------
+# kind "fhist": histories that contain FAILING computations, rejected assignments and temporaries.
+#
+# The histories of kind "hist" never leave the states in which the estimate can be computed.  Here an assignment (order >= N,
+# lag >= N, a record that is too short for the order / NW, an NFFT below what the estimator needs) puts the object into a state
+# in which the computation raises; the exception of the next read is caught (as a caller's try/except does, or `str(p)`, whose
+# __str__ swallows it) and the history goes on: further reads, get_converted_psd, power(), `sides = ...`, explicit p() / p.run(),
+# sometimes an assignment that makes the state computable again.  The oracle is agnostic about which states fail: every
+# observation is compared with a freshly constructed object holding the same attribute values - where the fresh object raises,
+# the re-used object has to raise too (same error family) instead of serving the estimate of an earlier state; where it returns,
+# the values have to agree and len(frequencies()) == len(psd).
+#
+# Oracle only: the Lean object model (driver mode O) treats `compute` as total, so it has no failing computation to compare with.
+
+_rng3 = np.random.default_rng(707)          # own stream: DATA[0..7] / DATAY keep their values
+SHORT_LENS = (1, 2, 3, 4, 5, 6, 8)
+
+
+def short_id(n, cplx):
+    return 40 + 2 * n + int(cplx)
+
+
+for _n in SHORT_LENS:
+    _re = _rng3.standard_normal(_n) + np.cos(0.9 * np.arange(_n))
+    _im = _rng3.standard_normal(_n)
+    DATA[short_id(_n, 0)] = _re
+    DATA[short_id(_n, 1)] = 0.5 * _re + 1j * _im + np.exp(0.7j * np.arange(_n))
+
+# Assignments after which the class cannot compute its estimate from the N = 20 start data (constructor values: orders 4 / 6, MA
+# order 2, lag 6, NW = 2.5); "short": lengths of replacement records that are too short.  Found by running the unchanged library
+# over order / lag / NFFT / record-length grids; values whose estimate is *returned* but is numerical noise (pcovar, order > N;
+# pminvar, order 17..20) are deliberately left out.  The oracle does not rely on this table (it asks a fresh object), the table
+# only steers the generator towards states that fail.  Periodogram computes something for every state.
+FAIL = {
+    "Periodogram": {},
+    "pcorrelogram": {"lag": [20, 21, 100], "nfft": [1, 3, 5], "short": [1, 3, 6]},
+    "pburg": {"ar": [0, 20, 21, 100], "nfft": [1, 4], "short": [1, 2, 3]},
+    "pyule": {"ar": [20, 25, 100], "nfft": [2, 4], "short": [1, 3, 4]},
+    "pcovar": {"ar": [20], "nfft": [1, 4], "short": [4]},
+    "pmodcovar": {"ar": [20, 21, 100], "nfft": [3, 4], "short": [1, 3, 4]},
+    "parma": {"ar": [9, 20, 25], "lag": [0, 1, 19, 20, 100], "ma": [0, 10, 30], "nfft": [1, 4], "short": [2, 5, 8]},
+    "pma": {"ar": [0, 1, 20, 100], "ma": [0, 10, 30], "nfft": [1, 2], "short": [1, 4, 6]},
+    "pminvar": {"ar": [0, 1, 21, 25, 100], "nfft": [1, 3], "short": [1, 2]},
+    "pmusic": {"ar": [0, 1, 17, 20, 100], "nfft": [1, 5], "short": [2, 6, 8]},
+    "pev": {"ar": [0, 1, 17, 20, 100], "nfft": [1, 5], "short": [2, 6, 8]},
+    "MultiTapering": {"short": [1, 3, 5]},
+}
+
+# assignments the setters reject (they raise): the object has to stay as it was
+BAD_COMMON = [["NFFT", -3], ["NFFT", 0], ["NFFT", 2.5], ["NFFT", "bogus"], ["detrend", "bogus"], ["scale_by_freq", "yes"],
+              ["scale_by_freq", 2], ["sides", "bogus"], ["data", None], ["data", 3.5]]
+F_OBS = ("read", "cread", "power", "str", "call", "run")
+
+
+def f_bad_ops(cls):
+    par, has = CLS[cls]
+    bad = [list(b) for b in BAD_COMMON]
+    if "window" in has:
+        bad.append(["window", "bogus"])
+    if par:
+        bad.append(["ar_order", -1])
+        bad.append(["ma_order", -2])
+    return [("bad", b) for b in bad]
+
+
+def f_fail_ops(cls, data0):
+    """(failing assignment, assignment that makes the state computable again) pairs"""
+    t = FAIL[cls]
+    a0 = init_attrs(cls, data0)
+    out = []
+    for k in ("ar", "ma", "lag"):
+        for v in t.get(k, []):
+            out.append(((k, v), (k, a0[k])))
+    for j, v in enumerate(t.get("nfft", [])):
+        out.append((("nfft", v), ("nfft", (None, 32)[j % 2])))
+    for n in t.get("short", []):
+        for c in (0, 1):
+            out.append((("data", short_id(n, c)), ("data", data0)))
+    return out
+
+
+def f_filler(cls):
+    """assignments that keep the record length (20): both start records, the NFFT values, sampling, detrend, scale, sides, the
+    class's window / lag / order values"""
+    par, has = CLS[cls]
+    ops = [("data", 0), ("data", 1), ("datalist", 1), ("nfft", 32), ("nfft", 33), ("nfft", None), ("nfft", "nextpow2"), ("nfft", 15),
+           ("samp", 1), ("samp", 0), ("detrend", 1), ("detrend", 0), ("scale", 1), ("scale", 0),
+           ("sides", "centerdc"), ("sides", "twosided"), ("sides", "onesided"), ("sides", "default")]
+    if "window" in has:
+        ops += [("window", 1), ("window", 0)]
+    if "lag" in has:
+        ops += [("lag", 7), ("lag", 6)]
+    if "ar" in has:
+        ops += [("ar", 5 if cls not in ("pma", "pmusic", "pev") else 7), ("ar", init_attrs(cls, 0)["ar"])]
+    if "ma" in has:
+        ops += [("ma", 3), ("ma", 2)]
+    return ops
+
+
+F_TMPSEQ = [[0, 1], [1, 0], [0, "read", 1], [1, "read", 0], [0, "demean"], [1, "demean"], [0, "read", "demean"], [1, "triple"],
+            [0, "triple", "read", "demean"], [2, 3], [3, "read", 2], [1, 1, "read", 0], [0, "read", 0, "demean", "read", "triple"]]
+
+
+def f_init(cls, data0):
+    a = init_attrs(cls, data0)
+    return {"x": DATA[data0], "NFFT": a["nfft"], "sampling": SAMP[a["samp"]], "scale_by_freq": bool(a["scale"]),
+            "detrend": DETREND[a["detrend"]], "window": WINDOWS[a["window"]], "lag": a["lag"], "ar_order": a["ar"],
+            "ma_order": a["ma"]}
+
+
+def f_build(cls, A, mt):
+    if not isinstance(A["x"], (np.ndarray, list)):
+        raise TypeError("data: %r" % (A["x"],))
+    return build_raw(cls, A["x"], dict(NFFT=A["NFFT"], sampling=A["sampling"], scale_by_freq=A["scale_by_freq"]),
+                     window=A["window"], detrend=A["detrend"], lag=A["lag"], ar=A["ar_order"], ma=A["ma_order"], mt=mt)
+
+
+def _family(e):
+    """error class family (the families of the runner's correspondence comparison)"""
+    if isinstance(e, AssertionError):
+        return "assert"
+    if isinstance(e, (ZeroDivisionError, FloatingPointError, np.linalg.LinAlgError)):
+        return "singular"
+    if isinstance(e, ValueError):
+        return "value"
+    if isinstance(e, TypeError):
+        return "type"
+    if isinstance(e, (IndexError, KeyError)):
+        return "index"
+    return "other:" + type(e).__name__
+
+
+def _f_err(e):
+    return ("err", _family(e), "%s: %s" % (type(e).__name__, str(e)[:70]))
+
+
+def _f_observe(o, k, sd):
+    """one observation; the exception of a failing computation is caught, as a caller's try/except (or __str__) does"""
+    try:
+        if k == "read":
+            return ("ok", np.array(o.psd))
+        if k == "cread":
+            return ("ok", np.array(o.get_converted_psd(sd)))
+        if k == "power":
+            return ("ok", np.array(o.power()))
+        if k == "str":
+            return ("ok", str(o))
+        if k == "call":
+            o()
+            return ("ok", None)
+        if k == "run":
+            o.run()
+            return ("ok", None)
+    except Exception as e:
+        return _f_err(e)
+    raise ValueError(k)
+
+
+def _f_fresh(cls, A, mt, o, k, sd):
+    """the same observation on a freshly constructed object with the attribute values A, its estimate (when there is one) brought
+    to the representation the re-used object reports"""
+    try:
+        f = f_build(cls, A, mt)
+        if k in ("call", "run"):
+            return _f_observe(f, k, sd)
+        if k == "str":
+            try:
+                f.psd
+            except Exception:
+                pass
+        else:
+            f.psd
+    except Exception as e:
+        return _f_err(e)
+    if f.sides != o.sides:
+        try:
+            f.sides = o.sides
+        except AssertionError:
+            return ("badsides", None)
+    return _f_observe(f, k, sd)
+
+
+def _f_snapshot(o):
+    return [repr(o.NFFT), repr(o.sampling), repr(o.df), o.sides, repr(o.detrend), repr(o.scale_by_freq), o.N, o.datatype,
+            len(o.frequencies()), repr(getattr(o, "window", None)), repr(getattr(o, "lag", None)),
+            repr(getattr(o, "ar_order", None)), repr(getattr(o, "ma_order", None)), str(np.asarray(o.data).dtype),
+            np.asarray(o.data).tobytes()]
+
+
+SNAP_NAMES = ["NFFT", "sampling", "df", "sides", "detrend", "scale_by_freq", "N", "datatype", "len(frequencies())", "window", "lag",
+              "ar_order", "ma_order", "data dtype", "data"]
+
+
+def _f_same(a, b, tol):
+    """arrays / scalars agree: same shape, same pattern of non-finite values, finite values within tol (relative to the largest
+    magnitude).  Returns the relative difference found (inf for a shape / pattern mismatch)."""
+    a = np.asarray(a)
+    b = np.asarray(b)
+    if a.shape != b.shape or a.dtype == object or b.dtype == object:
+        return float("inf")
+    if a.size == 0:
+        return 0.0
+    fa, fb = np.isfinite(a), np.isfinite(b)
+    if not np.array_equal(fa, fb):
+        return float("inf")
+    if not np.all(fa):
+        if not (np.array_equal(np.isnan(a), np.isnan(b)) and np.array_equal(a[~fa & ~np.isnan(a)], b[~fb & ~np.isnan(b)])):
+            return float("inf")
+        a, b = a[fa], b[fb]
+        if a.size == 0:
+            return 0.0
+    return rel(a, b)
+
+
+# worst relative difference seen by the fhist oracle between a re-used and a fresh object (diagnostic, read by the measuring script)
+F_WORST = [0.0]
+
+
+def f_tmpseq(o, items):
+    """assignments of temporaries, no reference kept and nothing allocated in between (CPython hands the id() / address of a freed
+    array to the next one): p.data = rec; [read;] p.data = rec2 / p.data = p.data - p.data.mean() / p.data = p.data * 3"""
+    for it in items:
+        if it == "read":
+            try:
+                o.psd
+            except Exception:
+                pass
+        elif it == "demean":
+            o.data = o.data - o.data.mean()
+        elif it == "triple":
+            o.data = o.data * 3.0
+        else:
+            o.data = np.array(DATA[it])
+
+
+def f_tmpseq_expected(x, items):
+    for it in items:
+        if it == "read":
+            continue
+        if it == "demean":
+            x = x - x.mean()
+        elif it == "triple":
+            x = x * 3.0
+        else:
+            x = DATA[it]
+    return x
+
+
+def _f_opname(op):
+    k, v = op[0], op[1]
+    if k == "bad":
+        return "%s=%r(rejected)" % (v[0], v[1])
+    if k == "tmpseq":
+        return "tmp[%s]" % ",".join(str(i) for i in v)
+    if k in ("power", "str", "run"):
+        return k
+    return op_name((k, v))
+
+
+def oracle_fhist(p):
+    """the property statement on the real code alone, for histories with failing computations: at every observation (psd,
+    get_converted_psd, power(), str(), p(), p.run()) the re-used object behaves as a freshly constructed object with the same
+    attribute values - raises where that one raises, returns the same values where that one returns; df = sampling/NFFT after
+    every operation; len(frequencies()) = len(psd) whenever psd is returned; a rejected assignment leaves the object unchanged"""
+    cls = p["cls"]
+    mt = p.get("mt", "unity")
+    ops = [(op[0], op[1]) for op in p["ops"]]
+    A = f_init(cls, p["data0"])
+    o = f_build(cls, A, mt)
+    out = []
+    names = [_f_opname(op) for op in ops]
+    tag = "%s%s, start data %d, history %s" % (cls, "" if mt == "unity" else "(method=%s)" % mt, p["data0"], names)
+    TOL = 1e-9       # the tolerance of kind "hist"; worst difference observed on the unchanged tree: 0.0 (see RULE)
+    for i, (k, v) in enumerate(list(ops) + [("read", None)]):
+        at = "operation %d (%s)" % (i, names[i]) if i < len(ops) else "the read after the history"
+        if k in F_OBS:
+            sd = cread_side(o, v) if k == "cread" else None
+            got = _f_observe(o, k, sd)
+            try:
+                exp = _f_fresh(cls, A, mt, o, k, sd)
+            except Exception as e:          # the observation itself is not expected to fail in any other way
+                return ["fresh object for %s raised %r (%s)" % (at, e, tag)]
+            what = {"read": "psd", "cread": "get_converted_psd('%s')" % sd, "power": "power()", "str": "str(p)", "call": "p()",
+                    "run": "p.run()"}[k]
+            if exp[0] == "badsides":
+                return ["object reports sides=%s at %s, which a freshly constructed object with the same attribute values (%s data) "
+                        "cannot have (%s)" % (o.sides, at, "complex" if np.iscomplexobj(A["x"]) else "real", tag)]
+            if exp[0] == "err" and got[0] == "ok":
+                shown = "" if got[1] is None or k == "str" else " %d value(s)" % np.asarray(got[1]).size
+                out.append("%s at %s returns%s although a freshly constructed object with the same attribute values raises %s: an "
+                           "estimate of an earlier state is served (NFFT = %s, %d frequencies) (%s)" % (
+                               what, at, shown, exp[2], o.NFFT, len(o.frequencies()), tag))
+            elif exp[0] == "ok" and got[0] == "err":
+                out.append("%s at %s raises %s although a freshly constructed object with the same attribute values returns an "
+                           "estimate (%s)" % (what, at, got[2], tag))
+            elif exp[0] == "err":
+                if exp[1] != got[1]:
+                    out.append("%s at %s raises %s, a freshly constructed object with the same attribute values raises %s (%s)" % (
+                        what, at, got[2], exp[2], tag))
+            elif k == "str":
+                if got[1] != exp[1]:
+                    out.append("str(p) at %s differs from that of a freshly constructed object with the same attribute values: %r "
+                               "against %r (%s)" % (at, got[1], exp[1], tag))
+            elif k in ("read", "cread", "power"):
+                d = _f_same(got[1], exp[1], TOL)
+                if d != float("inf"):
+                    F_WORST[0] = max(F_WORST[0], d)
+                if not d <= TOL:
+                    out.append("%s at %s is stale: differs from a freshly constructed object with the same attribute values (%s "
+                               "values against %s, relative difference %.3g) (%s)" % (
+                                   what, at, np.asarray(got[1]).size, np.asarray(exp[1]).size, d, tag))
+                if k == "read" and len(o.frequencies()) != len(got[1]):
+                    out.append("after %s: len(frequencies()) = %d != len(psd) = %d (%s)" % (at, len(o.frequencies()), len(got[1]), tag))
+        elif k == "bad":
+            before = _f_snapshot(o)
+            try:
+                setattr(o, v[0], v[1])
+                raised = None
+            except Exception as e:
+                raised = e
+            if raised is None:
+                A["x" if v[0] == "data" else v[0]] = v[1]      # accepted: the fresh objects are constructed with it from now on
+            else:
+                after = _f_snapshot(o)
+                diff = [n for n, b0, b1 in zip(SNAP_NAMES, before, after) if b0 != b1]
+                if diff:
+                    out.append("the rejected assignment %s at %s (%s) changed %s (%s)" % (
+                        names[i], at, type(raised).__name__, ", ".join(diff), tag))
+        elif k == "tmpseq":
+            f_tmpseq(o, v)
+            A["x"] = f_tmpseq_expected(A["x"], v)
+        else:
+            try:
+                apply_op(o, (k, v))
+            except Exception as e:
+                # `sides = s`: converts the estimate, which has to be brought up to date first - it may fail the way a read does
+                # (or, for complex data, refuse 'onesided'); the value of `sides` is not tracked (compared as reported)
+                if k != "sides":
+                    out.append("the assignment at %s raised %s: %s (%s)" % (at, type(e).__name__, str(e)[:80], tag))
+                continue
+            if k in ("data", "datalist"):
+                A["x"] = DATA[v]
+            elif k == "nfft":
+                n_data = len(A["x"])
+                A["NFFT"] = n_data if v is None else ((1 << (n_data - 1).bit_length()) if v == "nextpow2" else int(v))
+            elif k == "samp":
+                A["sampling"] = SAMP[v]
+            elif k == "detrend":
+                A["detrend"] = DETREND[v]
+            elif k == "scale":
+                A["scale_by_freq"] = bool(v)
+            elif k == "window":
+                A["window"] = WINDOWS[v]
+            elif k == "lag":
+                A["lag"] = v
+            elif k == "ar":
+                A["ar_order"] = v
+            elif k == "ma":
+                A["ma_order"] = v
+        if isinstance(A["NFFT"], (int, np.integer)) and A["NFFT"] > 0 and isinstance(A["sampling"], float):
+            if o.NFFT != A["NFFT"] or o.sampling != A["sampling"] or \
+                    abs(o.df - o.sampling / o.NFFT) > 1e-12 * abs(o.sampling / o.NFFT):
+                out.append("after %s: NFFT = %r (assigned: %r), sampling = %r (assigned: %r), df = %r (%s)" % (
+                    at, o.NFFT, A["NFFT"], o.sampling, A["sampling"], o.df, tag))
+        if len(out) >= 3:
+            break
+    return out
+
+
+def _key_f(p):
+    return "%s%s|%d|%s" % (p["cls"], "" if p.get("mt", "unity") == "unity" else ":" + p["mt"], p["data0"],
+                           [_f_opname((o[0], o[1])) for o in p["ops"]])
+
+
+def _nontrivial_f(p):
+    ks = [o[0] for o in p["ops"]]
+    return any(k not in F_OBS for k in ks)
+
+
+def _is_fail_op(cls, op):
+    k, v = op[0], op[1]
+    t = FAIL[cls]
+    if k in ("ar", "ma", "lag", "nfft"):
+        return v in t.get(k, [])
+    if k == "data" and isinstance(v, (int, np.integer)) and v >= 40:
+        return (v - 40) // 2 in t.get("short", [])
+    return False
+
+
+def _tags_f(p):
+    cls = p["cls"]
+    ops = [(o[0], o[1]) for o in p["ops"]]
+    ks = [o[0] for o in ops]
+    t = ["f:cls:" + cls, "f:start:" + ("complex" if np.iscomplexobj(DATA[p["data0"]]) else "real"), "f:len:%d" % len(ops)]
+    if cls == "MultiTapering":
+        t.append("f:mt:" + p.get("mt", "unity"))
+    for k in ("str", "power", "run", "call", "cread", "bad", "tmpseq"):
+        if k in ks:
+            t.append("f:op:" + k)
+    fails = [i for i, op in enumerate(ops) if _is_fail_op(cls, op)]
+    for i in fails[:1]:
+        t.append("f:failing-assignment:" + ("short-record" if ops[i][0] == "data" else ops[i][0]))
+        computed = any(k in ("read", "cread", "power", "str", "call", "run") for k in ks[:i])
+        t.append("f:estimate-computed-before-the-failing-assignment" if computed else "f:never-computed-before-the-failing-assignment")
+        obs_after = [j for j in range(i + 1, len(ops)) if ks[j] in ("read", "cread", "power", "str") or ks[j] == "sides"]
+        if len(obs_after) >= 2:
+            t.append("f:observed-twice-or-more-after-the-failing-assignment")
+        if any(ks[j] in ("call", "run") for j in range(i + 1, len(ops))):
+            t.append("f:explicit-computation-after-the-failing-assignment")
+        if any(ks[j] not in F_OBS and ks[j] not in ("sides", "bad", "tmpseq") for j in range(i + 1, len(ops))):
+            t.append("f:assignment-after-the-failing-one")
+    if not fails:
+        t.append("f:no-failing-assignment")
+    return t
+
+
 KINDS = {
     "hist": {"impl": impl_hist, "model": model_hist, "post": post_hist, "oracle": oracle_hist, "rtol": 1e-9, "atol": 1e-300,
              "key": _key, "nontrivial": _nontrivial, "tags": _tags},
+    # oracle only (no "model"): see the comment above FAIL
+    "fhist": {"oracle": oracle_fhist, "key": _key_f, "nontrivial": _nontrivial_f, "tags": _tags_f},
 }
 
 
@@ -708,3 +1163,80 @@ def gen(rng, nrng, tier):
             if i % 2:
                 h.insert(int(nrng.integers(0, len(h) + 1)), dy[(i // 2) % 2])
             yield ("hist", {"cls": cls, "data0": data0, "ops": h + [R]})
+    # ------------------------------------------------------------------------------------------------------------------
+    # kind "fhist" (generated last: the random streams of the cases above are the same as before)
+    yield from gen_fhist(nrng, quick)
+
+
+def gen_fhist(nrng, quick):
+    R = ("read", None)
+    C = ("call", None)
+    S = ("str", None)
+    P = ("power", None)
+    RUN = ("run", None)
+    pres = [[R], [C], [R, ("sides", "centerdc")], [("nfft", 32), R], [], [("cread", "twosided")], [S]]
+    # what happens in the failing state: the first entry meets the failing computation (exception caught / swallowed), the second
+    # one looks again
+    first = [R, S, ("cread", "centerdc"), ("cread", "twosided"), P, ("sides", "centerdc"), ("sides", "twosided"), C, RUN]
+    second = [R, ("cread", "twosided"), ("cread", "centerdc"), P, S, ("sides", "centerdc"), ("sides", "default")]
+    for ci, cls in enumerate(CLS):
+        mts = MT_METHODS if cls == "MultiTapering" else ("unity",)
+        filler = f_filler(cls)
+        bad = f_bad_ops(cls)
+        for mt in mts:
+            base = {"cls": cls} if mt == "unity" else {"cls": cls, "mt": mt}
+            for data0 in (0, 1):
+                fails = f_fail_ops(cls, data0)
+                # tails: nothing / the state becomes computable again / another (flagged) assignment that leaves it uncomputable
+                for fi, (F, heal) in enumerate(fails):
+                    tails = [[], [heal, R], [heal, ("cread", "centerdc")], [("samp", 1), R], [("scale", 1), S, R], [heal, C, P]]
+                    combos = [(a, b) for a in range(len(first)) for b in range(len(second))]
+                    if quick:
+                        # the plain pattern (read, failing assignment, read, read) and sampled combinations
+                        n_s = 3 if mt == "unity" else 2
+                        pick = [(0, 0)] + [combos[int(j)] for j in nrng.choice(len(combos) - 1, size=n_s, replace=False) + 1]
+                    else:
+                        pick = combos
+                    for (a, b) in pick:
+                        plain = (a, b) == (0, 0)
+                        pre = [R] if plain else pres[int(nrng.integers(0, len(pres)))]
+                        tail = [] if plain else tails[int(nrng.integers(0, len(tails)))]
+                        mid = [first[a], second[b]]
+                        if not plain and int(nrng.integers(0, 4)) == 0:
+                            mid.insert(1, filler[int(nrng.integers(0, len(filler)))])
+                        yield ("fhist", dict(base, data0=data0, ops=[list(o) for o in pre + [F] + mid + tail + [R]]))
+                # rejected assignments: on a new object, on an up-to-date one, on one with a pending recomputation
+                for bi, b in enumerate(bad):
+                    forms = [[b, R], [R, b, R], [C, filler[(bi + ci) % len(filler)], b, R], [R, ("sides", "centerdc"), b, R, b],
+                             [R, b, ("cread", "centerdc"), b, S]]
+                    if fails:
+                        F, heal = fails[(bi + data0) % len(fails)]
+                        forms.append([R, F, b, R, heal, b, R])
+                    for fj, form in enumerate(forms):
+                        if quick and (fj + bi + ci + data0) % 3 != 0:
+                            continue
+                        yield ("fhist", dict(base, data0=data0, ops=[list(o) for o in form]))
+                # temporaries assigned to data
+                for ti, items in enumerate(F_TMPSEQ):
+                    T = ("tmpseq", items)
+                    forms = [[T, R], [R, T, R], [C, T, ("cread", "centerdc"), T, R]]
+                    for fj, form in enumerate(forms):
+                        if quick and (fj + ti + ci + data0) % 3 != 0:
+                            continue
+                        yield ("fhist", dict(base, data0=data0, ops=[list(o) for o in form]))
+                # random histories over everything
+                alpha = (filler + [f for f, _ in fails] + [h for _, h in fails] + [R, R, S, P, C, RUN, ("cread", "centerdc"),
+                         ("cread", "twosided"), ("cread", "onesided")] + bad + [("tmpseq", it) for it in F_TMPSEQ])
+                n_rand = (12 if mt == "unity" else 6) if quick else 150
+                for i in range(n_rand):
+                    ln = int(nrng.integers(3, 11))
+                    h = [alpha[int(nrng.integers(0, len(alpha)))] for _ in range(ln)]
+                    if fails and i % 2 == 0:
+                        # make sure a failing assignment is in, with observations after it
+                        pos = int(nrng.integers(0, ln))
+                        h[pos] = fails[int(nrng.integers(0, len(fails)))][0]
+                        h.insert(pos + 1, first[int(nrng.integers(0, len(first)))])
+                        h.insert(pos + 2, second[int(nrng.integers(0, len(second)))])
+                        if i % 4 == 0:
+                            h.insert(int(nrng.integers(0, pos + 1)), R)
+                    yield ("fhist", dict(base, data0=data0, ops=[list(o) for o in h + [R]]))
